@@ -259,9 +259,16 @@ theorem held_mintr (S : PSt) (i p : Pid) (h : Held S p) : Held (mintr S i) p := 
     unfold mintr
     cases hc : S.ctl p with
     | body n reg => simp only []; split <;> simp [Held]
-    | acq k => simpa [hc] using h
+    | acq k =>
+      simp only []
+      split
+      · split <;> simp [Held]
+      · exact h
     | unw a b c => simpa [hc] using h
-    | rel a b c e => simpa [hc] using h
+    | rel a b c e =>
+      simp only []
+      repeat' split
+      all_goals simp [Held, hc]
     | fin o => simpa [hc] using h
   · have e := mintr_effect S i
     unfold Held
